@@ -801,6 +801,16 @@ func (p *Process) setUpProbes() {
 }
 
 func (p *Process) startProbes() {
+	// stopProcess marks the process Terminating before it stops the probes: looking
+	// at the state under the same mutex keeps a stop that arrived right after the
+	// launch from being followed by the start of the probes
+	p.stateMtx.Lock()
+	defer p.stateMtx.Unlock()
+	if p.procState.Status != types.ProcessStateRunning &&
+		p.procState.Status != types.ProcessStateLaunching &&
+		p.procState.Status != types.ProcessStateLaunched {
+		return
+	}
 	if p.liveProber != nil {
 		p.liveProber.Start()
 	}
